@@ -10,6 +10,8 @@ import (
 	. "github.com/vektah/gqlparser/v2/validator"
 )
 
+import "github.com/vektah/gqlparser/v2/verifhook"
+
 var NoFragmentCyclesRule = Rule{
 	Name: "NoFragmentCycles",
 	RuleFunc: func(observers *Events, addError AddErrFunc) {
@@ -21,6 +23,7 @@ var NoFragmentCyclesRule = Rule{
 
 			var recursive func(fragment *ast.FragmentDefinition)
 			recursive = func(fragment *ast.FragmentDefinition) {
+				verifhook.Step(verifhook.SiteFragmentCycles)
 				if visitedFrags[fragment.Name] {
 					return
 				}
